@@ -17,6 +17,13 @@ def field_lists(tier):
     for n in range(1, maxn + 1):
         for ks in itertools.product(KEYPOOL, repeat=n):
             out.append(list(ks))
+    # longer lists with two groups of colliding keys: a collision, then a new key that is itself overridden later (positions
+    # of first occurrences shift once an earlier duplicate was dropped)
+    a, A, b, B = KEYPOOL[0], KEYPOOL[0].swapcase(), KEYPOOL[1], KEYPOOL[1].swapcase()
+    c = next((k for k in KEYPOOL if k.lower() not in (a.lower(), b.lower())), "zz")
+    for extra in ([a, A, b, B], [a, A, b, c, B], [a, A, a, b, B, b], [b, a, A, c, c.swapcase(), a], [c, a, A, A, b, B, c.swapcase()]):
+        if extra not in out:
+            out.append(extra)
     return out
 
 
